@@ -14,6 +14,7 @@ from simkit import canon, core, procs, sqlshim, texts, util
 from simkit.runner import ddmin_list
 
 LABEL = "2.0.sim"
+LABELS = ["2.0.sim", "2.1.sim"]  # two pymoca versions may share one cache folder
 INITS = ["absent", "empty", "fresh", "stale", "wrong_layout"]
 GC_LAT = [0, 1000, 100_000, 10_000_000, -1]
 COSTS = [(50, 2000), (10, 100), (500, 5000)]
@@ -79,6 +80,7 @@ class Engine:
             "stalls": [],
             "crash": None,
             "sched_seed": rng.randrange(1 << 62),
+            "labels": [0] * n_proc if rng.random() < 0.7 else [rng.randrange(2) for _ in range(n_proc)],
         }
         if config == "stall":
             for _ in range(rng.choice([1, 1, 2])):
@@ -86,6 +88,12 @@ class Engine:
                                        "dur_us": int(10 ** rng.uniform(5, 7))})
         if config == "crash":
             plan["crash"] = {"actor": rng.randrange(n_act), "at_step": rng.randint(1, 45)}
+        plan["holders"] = []
+        if config == "stall" and rng.random() < 0.5:
+            # a process stalled in the middle of its COMMIT: it holds the EXCLUSIVE (or RESERVED) lock for that long.
+            # SQLite's commit is one seam call here, so this state is produced by an explicit stand-in actor.
+            plan["holders"].append({"at_us": rng.choice([0, 500, 5000, 50_000]), "dur_us": int(10 ** rng.uniform(5.5, 7.1)),
+                                    "mode": rng.choice(["EXCLUSIVE", "EXCLUSIVE", "IMMEDIATE"])})
         return plan
 
     def shrink_candidates(self, plan):
@@ -125,6 +133,10 @@ class Engine:
             p = copy.deepcopy(plan)
             p["crash"] = None
             yield p
+        if plan.get("holders"):
+            p = copy.deepcopy(plan)
+            p["holders"] = []
+            yield p
         # one process per actor -> single process
         if len({a["proc"] for a in plan["actors"]}) > 1:
             p = copy.deepcopy(plan)
@@ -146,6 +158,10 @@ class Engine:
         if plan["gc_latency_us"] != 0:
             p = copy.deepcopy(plan)
             p["gc_latency_us"] = 0
+            yield p
+        if any(plan.get("labels") or []):
+            p = copy.deepcopy(plan)
+            p["labels"] = [0] * len(p["labels"])
             yield p
         # schedule simplification: run actors to completion in index order / fewer context switches
         sch = plan.get("schedule") or {}
@@ -174,12 +190,12 @@ class Engine:
                 yield p
 
     # -- reference -------------------------------------------------------------------------------
-    def reference(self, text):
-        key = (text, LABEL)
+    def reference(self, text, label=LABEL):
+        key = (text, label)
         if key not in self.refs:
             if len(self.refs) > 2000:
                 self.refs.clear()
-            rp = procs.SimProcess(LABEL)
+            rp = procs.SimProcess(label)
             self.refs[key] = canon.tree_digest(rp.reference(text))
         return self.refs[key]
 
@@ -245,7 +261,10 @@ class Engine:
             sched = core.Sched(clock, source, log, step_cap=4000, stalls=plan["stalls"], crash=plan["crash"])
             shim = sqlshim.SqlShim(sched, sandbox, plan["gc_latency_us"])
             n_proc = 1 + max(a["proc"] for a in plan["actors"])
-            sprocs = [procs.SimProcess(LABEL) for _ in range(n_proc)]
+            plabels = [LABELS[(plan.get("labels") or [0] * n_proc)[k % len(plan.get("labels") or [0])] % 2] for k in range(n_proc)]
+            sprocs = [procs.SimProcess(plabels[k]) for k in range(n_proc)]
+            if len(set(plabels)) > 1:
+                bump("probe:mixed_versions")
             outcomes = []  # (seq, actor, call index, kind, detail, site, last seam)
             last_seam = {}
             orig_yield = sched.yield_point
@@ -272,12 +291,13 @@ class Engine:
                                 pool[call["text"]], model_cache_folder=folder,
                                 cache_expiration_days=call["exp_days"], always_update_last_hit=call["always_update"])
                             d = canon.tree_digest(tree)
-                            if d == refs[call["text"]]:
+                            want = self.reference(pool[call["text"]], plabels[spec["proc"]])
+                            if d == want:
                                 outcomes.append((len(outcomes), idx, ci, "ok", "", "", ""))
-                            elif d is None or refs[call["text"]] is None:
+                            elif d is None or want is None:
                                 outcomes.append((len(outcomes), idx, ci, "none_mismatch",
                                                  "got %s expected %s" % ("None" if d is None else "tree",
-                                                                         "None" if refs[call["text"]] is None else "tree"),
+                                                                         "None" if want is None else "tree"),
                                                  "parser:parse", last_seam.get(idx, "")))
                             else:
                                 outcomes.append((len(outcomes), idx, ci, "wrong_result", "tree differs from uncached parse",
@@ -297,6 +317,33 @@ class Engine:
             for idx, spec in enumerate(plan["actors"]):
                 sched.spawn(idx, spec["proc"], body(spec, idx))
                 live_by_proc[spec["proc"]] = live_by_proc.get(spec["proc"], 0) + 1
+
+            def holder_body(h, hidx):
+                def run(actor):
+                    sched.sleep_until(clock.now_us + h["at_us"], "holder_wait", "")
+                    if not dbpath.exists():
+                        log.add(clock.now_us, hidx, "holder_skipped", "no database yet")
+                        return
+                    shim.calls_in_progress[hidx] = ("holder", hidx)
+                    conn = None
+                    try:
+                        conn = sqlite3.connect(str(dbpath), isolation_level=None)
+                        conn.execute("BEGIN %s" % h["mode"])
+                        bump("fault:lock_holder_" + h["mode"].lower())
+                        sched.sleep_until(clock.now_us + h["dur_us"], "holder_hold", h["mode"])
+                        conn.execute("COMMIT")
+                    except sqlite3.Error as e:
+                        log.add(clock.now_us, hidx, "holder_error", type(e).__name__)
+                    finally:
+                        if conn is not None:
+                            conn.close()
+                        shim.calls_in_progress[hidx] = None
+                return run
+
+            for k, h in enumerate(plan.get("holders") or []):
+                hidx = len(plan["actors"]) + k
+                sched.spawn(hidx, 100 + k, holder_body(h, hidx))
+                live_by_proc[100 + k] = 1
 
             def on_exit(actor):
                 if actor.state == "dead":
